@@ -212,13 +212,18 @@ check('C18',
       'reference mc/models/seqtypes.py; nodes are untyped; maps and arrays against typed function tests are not judged; calls that raise are not judged',
       'DESIGN.md section 3 C18')
 check('C20',
-      'bounded-exhaustive enumeration of generated schemas, valid instances and path expressions, evaluated with and without the schema',
-      '94 schemas generated from a grammar (root with a repeated child whose type is each of 40 built-in atomic types, as element and as attribute; xs:list of '
-      'xs:int / xs:NMTOKEN; xs:union; restrictions by enumeration and range; simple-content extension with a typed attribute; nillable with xsi:nil; default and '
-      'fixed values; xsi:type substitution; attribute default; two typed children), XSD 1.0 and 1.1 (xmlschema.XMLSchema10/11), xml.etree and lxml trees; every '
-      'instance is validated by xmlschema. For every typed element and attribute: data() is a single value of the datatype class of the declared type, '
-      'instance of xs:T, its string is the canonical form of the reference model and equals what xmlschema decodes; instance of element(*, T) / attribute(*, T) '
-      'holds for the declared type and every base type and fails for an unrelated type; + 1 and = xs:T(literal) use the typed value; list items and nilled '
-      'elements. 40 structural paths select the same nodes with and without the schema.',
-      'reference mc/models/atomic.py, mc/models/seqtypes.py and the xmlschema decoder; QName / IDREF / ENTITY typed content and xsi:type on xml.etree (no prefix map) are outside the generated space',
-      'DESIGN.md section 3 C20')
+      'bounded-exhaustive enumeration of generated schemas, valid instances and path expressions, evaluated with and without the schema; explicit-state histories of contexts reusing one node tree',
+      '158 (quick) / 347 (thorough) schemas generated from a grammar (root with a repeated child whose type is each of 40 built-in atomic types, as element and as attribute; '
+      'xs:list of xs:int / xs:NMTOKEN; xs:union; restrictions by enumeration and range; simple-content extension with a typed attribute; nillable with xsi:nil; default and '
+      'fixed values; xsi:type substitution; attribute default; two typed children; two local elements with the same name and different types under different parents for every '
+      'ordered pair of 6 (12) types in every document order and at different depths; simple-content extensions of lists, list-typed attributes, restrictions of lists, lists of '
+      'restricted items, unions of restricted members, restrictions of unions, lists of unions; restriction chains with user-defined type names; substitution groups; xs:any / '
+      'xs:anyAttribute wildcards; three-level nesting), XSD 1.0 and 1.1 (xmlschema.XMLSchema10/11), xml.etree and lxml trees; every instance is validated by xmlschema. '
+      'For every typed element and attribute: data() is a single value of the datatype class of the declared type, instance of xs:T, its string is the canonical form of the '
+      'reference model and equals what xmlschema decodes; instance of element(*, T) / attribute(*, T) holds for the declared type, every base type and user-defined base types '
+      'and fails for an unrelated type; + 1, = xs:T(literal), max() use the typed value; list items and nilled elements. 45 structural paths select the same nodes with and '
+      'without the schema. Every history of up to 3 (6) contexts bound to schema A / schema B / no schema on ONE prebuilt node tree: after each step with a schema the typed '
+      'values are those of that schema.',
+      'reference mc/models/atomic.py, mc/models/seqtypes.py and the xmlschema decoder; QName / IDREF / ENTITY typed content and xsi:type on xml.etree (no prefix map) are outside '
+      'the generated space; what a schema-less context sees on a tree typed by an earlier context is not judged',
+      'DESIGN.md section 3 C20 and section 10')
